@@ -41,6 +41,12 @@ def cases(ctx):
         # ledger: `forced` is over-weighted so that every command occurs in the sample (checked by post_merge)
         m = models.gen_model(rng, n_ops=rng.randint(2, 14), sinks=rng.random() < 0.5, cmds=list(cmds) + [forced] * 8 + (["CvtToFuzzy"] * 4 if forced in arr.FUZZY_INPUT else []),
                              libs="nc" if i % 4 == 3 else "csv")
+        if i % 4 != 3 and i % 7 == 2:
+            # the table is named through a symbolic link and "..": the file the operating system finds there is the input
+            m["table"]["via_symlink"] = True
+            for c in m["commands"]:
+                if c["cmd"] == "EEMSRead":
+                    c["args"]["InFileName"] = "link/../" + m["table"]["file"]
         yield {"model": m, "perms": 3 if ctx.quick else 8, "rseed": rng.randrange(10 ** 9)}
 
 
